@@ -272,6 +272,12 @@ func (b *Body) classifyReturn(ret *ast.ReturnStmt) int {
 		}
 		return retMaybe
 	}
+	if ix, ok := e.(*ast.IndexExpr); ok {
+		if sl, ok := info.TypeOf(ix.X).Underlying().(*types.Slice); ok && isErrorType(sl.Elem()) {
+			return retFailure // an element of a collection of errors
+		}
+		return retMaybe
+	}
 	if call, ok := e.(*ast.CallExpr); ok {
 		switch id := calleeID(info, call); id {
 		case "fmt.Errorf", "errors.New", "pkg/errors.New":
